@@ -18,6 +18,10 @@ type session struct {
 	serverNonce       []byte
 	remoteCertificate []byte
 
+	// activated is set once ActivateSession succeeded for this session.
+	// It is protected by the session broker's mutex.
+	activated bool
+
 	PublishRequests chan PubReq
 }
 
@@ -63,10 +67,31 @@ func (sb *sessionBroker) Close(authToken *ua.NodeID) error {
 		if sb.logger != nil {
 			sb.logger.Warn("sessionBroker.Close: error looking up session %v", authToken)
 		}
+		return ua.StatusBadSessionIDInvalid
 	}
 	delete(sb.s, authToken.String())
 
 	return nil
+}
+
+// Activate marks the session as activated.
+func (sb *sessionBroker) Activate(s *session) {
+	sb.mu.Lock()
+	defer sb.mu.Unlock()
+	s.activated = true
+}
+
+// Activated returns the session for the authentication token and whether it
+// has been activated. The session is nil if the token names no open session.
+func (sb *sessionBroker) Activated(authToken *ua.NodeID) (*session, bool) {
+	sb.mu.Lock()
+	defer sb.mu.Unlock()
+
+	s := sb.s[authToken.String()]
+	if s == nil {
+		return nil, false
+	}
+	return s, s.activated
 }
 
 func (sb *sessionBroker) Session(authToken *ua.NodeID) *session {
